@@ -9,12 +9,19 @@ ID = 'C05'
 MIN_OBLIGATIONS = 20
 TRUSTED = [common.TEXT['chan'], common.TEXT['target'], extlib.TEXT['copy']]
 ASSUMPTIONS = [
-    'argument channel invariant (appendix B.7): the parent writes only (args, kwargs) pairs and at most one None; proved for the parent side in lemma L4*',
+    'argument channel invariant (appendix B.7): the parent writes only (args, kwargs) pairs and at most one None; the parent side is lemma L5 (enqueue writes exactly the pair it was given, or nothing) and L5c (close writes the one None)',
+    'L6 call(): the value returned is that of the NEXT result message; that this message answers the input just enqueued when no results are outstanding is the composition with the child-side lemma L1 (k-th result message = target applied to the k-th input), not one formula',
+    'PersistentRemoteWorker.enqueue returns normally when the connection turns out to be lost while sending (the input is dropped, _socket_closed is set and every later enqueue raises WorkerClosedError): the worker is then dying, its stream is the prefix C06 describes; L5-remote states exactly this and does not count it as a violation',
     'kwargs dictionaries are opaque mathematical values; d.update(e) is the uninterpreted function dict_update(d, e), which is also what the property text means by "overriding default ones"',
 ]
 
 
 MUTANTS = [
+    ('pyworkers/persistent_thread.py', "        self._args_pipe.parent_end.put((args, kwargs))\n", "        self._args_pipe.parent_end.put((args, {}))\n", 'thread: enqueue drops the keyword arguments'),
+    ('pyworkers/persistent_process.py', "        if not self.is_alive() or self._closed:\n            raise WorkerClosedError(self)\n        self._args_pipe", "        if not self.is_alive():\n            raise WorkerClosedError(self)\n        self._args_pipe", 'process: enqueue no longer checks that the worker is closed'),
+    ('pyworkers/persistent_remote.py', "            send_msg(self._socket, (args, kwargs), comment='data: new args')", "            send_msg(self._socket, (kwargs, args), comment='data: new args')", 'remote: enqueue sends the pair the wrong way round'),
+    ('pyworkers/persistent_thread.py', "        if self._closed:\n            return\n        self._args_pipe.parent_end.put(None)", "        self._args_pipe.parent_end.put(None)", 'thread: every close() writes another None'),
+    ('pyworkers/persistent.py', "        self.enqueue(*args, **kwargs)\n        return self.next_result()", "        self.enqueue(*args)\n        return self.next_result()", 'call() drops the keyword arguments'),
     ('pyworkers/persistent.py', "                yield self.next_result()\n                cnt += 1\n", "                value = self.next_result()\n                if value is None:\n                    break\n                yield value\n                cnt += 1\n", 'results_iter stops at a result that is None'),
     ('pyworkers/persistent.py', "        if not flag:\n            raise queue.Empty\n        return value", "        if not flag or not value:\n            raise queue.Empty\n        return value", 'next_result treats a falsy result as the end of the stream'),
     ('pyworkers/persistent_thread.py', "            args = list(copy.deepcopy(self._args))\n", "            args = list(self._args)\n            args = self._args\n", 'thread: defaults no longer copied (calls see what earlier calls left)'),
@@ -38,7 +45,186 @@ def build(ex):
         lemmas.append((persistent.do_work_contract(ex, 'process', f'L1p-{ak}', 'Pipe', ak), None))
         lemmas.append((persistent.do_work_contract(ex, 'remote', f'L1r-{ak}', 'Pipe', ak), None))
     lemmas += parent_side(ex)
+    lemmas += producer_side(ex)
     return lemmas
+
+
+def producer_side(ex):
+    """L5: enqueue of the three kinds writes exactly the (args, kwargs) pair it was given to the argument channel of a live, open worker and raises
+    WorkerClosedError - writing nothing - on a dead or closed one; L5c: close writes the single None; L6: call() = enqueue + next_result"""
+    from pyvc.smt import Val, ValList, SeqVal
+    from pyvc.contracts import Contract
+    from . import workers as W
+    repo = ex.repo
+    PWK = 'pyworkers.persistent.PersistentWorker'
+    out = []
+
+    def base(ex_, env, kind):
+        I = ex_.interp
+        if 'Proc' not in ex_.abs_classes:
+            ex_.abs_classes['Proc'] = W.proc_class()
+        cls = persistent.KINDS[kind]
+        closed0 = I.sym('closed0', 'bool')
+        if kind == 'thread':
+            child = VAbs('Proc', Val.v_str(z3.IntVal(smt.str_code('<child thread>'))))
+            ap, aends = common.make_pipe(ex_, 'args', 'LocalPipe')
+            rp, rends = common.make_pipe(ex_, 'results', 'LocalPipe')
+            attrs = {'_results_pipe': rp, '_args_pipe': ap, '_started': VBool(True), '_dead': I.sym('dead0', 'bool'), '_child': child, '_tid': I.sym('child_tid'),
+                     '_closed': closed0}
+            env['self'] = ex_.alloc(HObj(repo.cls(cls), attrs))
+            env['argq'] = aends['q']
+            env['resq'] = rends['q']
+            ex_.ghost['__call_hooks__'] = {repo.lookup_method(repo.cls(cls), 'is_child')[0].qualname: lambda I2, fi, a, k, n, s: VBool(False)}
+        elif kind == 'process':
+            W.install(ex_)
+            self_v = W.process_parent(ex_, env, cls=cls)
+            child = env['child']
+            ap, aends = common.make_pipe(ex_, 'args', 'Pipe')
+            rp, rends = common.make_pipe(ex_, 'results', 'Pipe')
+            a = ex_.heap[self_v.addr].attrs
+            a.update({'_args_pipe': ap, '_results_pipe': rp, '_closed': closed0, '_cleaned_up': VBool(False)})
+            env['argq'] = aends['parent']
+            env['resq'] = rends['parent']
+            # representation invariant of the parent side: the argument pipe's parent end is open exactly while the worker is not closed (_release_child)
+            ex_.abs_classes['Conn'].set(ex_, aends['parent'], 'open', z3.Not(closed0.e))
+            ex_.ghost['__call_hooks__'] = {}
+        else:
+            child = VAbs('Proc', Val.v_str(z3.IntVal(smt.str_code('<front-end thread>'))))
+            s = common.new_chan(ex_, 'Conn', 'sock')
+            rp, rends = common.make_pipe(ex_, 'results', 'LocalPipe')
+            attrs = {'_started': VBool(True), '_dead': I.sym('dead0', 'bool'), '_child': child, '_remote_dead': I.sym('remote_dead0', 'bool'),
+                     '_socket': s, '_remote_side': VBool(False), '_is_backend': VBool(False), '_result': I.sym('result0'), '_results_pipe': rp,
+                     '_closed': closed0, '_socket_closed': I.sym('socket_closed0', 'bool'), '_ctrl_sock': common.new_chan(ex_, 'Conn', 'ctrlsock')}
+            ex_.ghost['chan_elem_inv'] = {'ctrlsock': lambda ex2, x, i: Val.is_v_bool(x)}      # replies to 'alive' requests are booleans
+            env['self'] = ex_.alloc(HObj(repo.cls(cls), attrs))
+            env['argq'] = s
+            env['resq'] = rends['q']
+            ex_.ghost['__call_hooks__'] = dict(common.MSG_HOOKS)
+            ex_.ghost['send_raises'] = {'sock': ['ConnectionClosedError']}
+        ex_.abs_classes['Proc'].set(ex_, child, 'alive', ex_.fresh('child_alive', smt.Bool))
+        env['child'] = child
+        env['closed0'] = closed0
+        ac = ex_.abs_classes[env['argq'].cls]
+        out0 = ex_.fresh('args_out0', SeqVal)
+        ac.set(ex_, env['argq'], 'out', out0)
+        env['out0'] = VSeq(out0)
+        ex_.ghost['recv_closed_check'] = False
+
+    def enq_setup(kind):
+        def su(ex_, env):
+            base(ex_, env, kind)
+            env['args'] = VSeq(ex_.fresh('enq_args', SeqVal))
+            env['kwargs'] = common.new_odict(ex_, ex_.fresh('enq_kwargs', Val))
+        return su
+
+    def argout(c):
+        return c.ex.abs_classes[c.env['argq'].cls].get(c.ex, c.env['argq'], 'out')
+
+    def was_dead_or_closed(c):
+        ex_ = c.ex
+        a0 = ex_.old['heap'][c.env['self'].addr].attrs
+        a1 = ex_.heap[c.env['self'].addr].attrs
+        closed = a0['_closed'].e
+        if '_socket_closed' in a0:
+            closed = z3.Or(closed, a0['_socket_closed'].e)
+        # dead: known dead before, or observed dead by this very call (then cached)
+        return z3.Or(closed, a0['_dead'].e, a1['_dead'].e)
+
+    def pair(c):
+        return Val.v_tup(smt.mk_list([lower(c.env['args'], c.ex), lower(c.env['kwargs'], c.ex)]))
+
+    def enq_ok(c):
+        ex_ = c.ex
+        a1 = ex_.heap[c.env['self'].addr].attrs
+        sent = argout(c) == z3.Concat(c.env['out0'].e, z3.Unit(pair(c)))
+        ok = z3.And(z3.Not(was_dead_or_closed(c)), sent)
+        if '_socket_closed' in a1:
+            lost = z3.And(z3.Not(was_dead_or_closed(c)), argout(c) == c.env['out0'].e, a1['_socket_closed'].e)
+            return z3.Or(z3.And(ok, z3.Not(a1['_socket_closed'].e)), lost)
+        return ok
+    enq_ok.__doc__ = ('enqueue returns normally only on a worker that is neither closed nor (observed) dead, and then exactly one message, the pair (args, kwargs) as given, '
+                      'has been appended to the argument channel [remote kind: or the connection was found lost, nothing was appended and _socket_closed is now set]')
+
+    def enq_closed(c):
+        return z3.And(was_dead_or_closed(c), argout(c) == c.env['out0'].e)
+    enq_closed.__doc__ = 'WorkerClosedError exactly on a closed or dead worker, and nothing has been written'
+    for kind in ('thread', 'process', 'remote'):
+        cls = persistent.KINDS[kind]
+        out.append((Contract(cls + '.enqueue', lid=f'L5-{kind}', name=f'C05.L5-{kind} enqueue writes exactly the pair it was given, or raises WorkerClosedError and writes nothing',
+                             params={'self': ('const', None), 'args': ('const', None), 'kwargs': ('const', None)}, self_class=cls, setup=enq_setup(kind),
+                             ensures=[enq_ok], raises={'WorkerClosedError': enq_closed}, raises_only=['WorkerClosedError'], options={'recv_closed_check': False}), None))
+
+    # ---- close(): at most one None, and the worker is closed afterwards
+    def close_post(c):
+        ex_ = c.ex
+        a0 = ex_.old['heap'][c.env['self'].addr].attrs
+        a1 = ex_.heap[c.env['self'].addr].attrs
+        o = argout(c)
+        o0 = c.env['out0'].e
+        closed0 = a0['_closed'].e
+        if '_socket_closed' in a0:
+            closed0 = z3.Or(closed0, a0['_socket_closed'].e)
+        one_none = o == z3.Concat(o0, z3.Unit(Val.v_none))
+        return z3.And(z3.Or(o == o0, one_none), z3.Implies(closed0, o == o0), z3.Implies(one_none, a1['_closed'].e))
+    close_post.__doc__ = 'close() writes nothing but at most one None to the argument channel, nothing on an already closed worker, and having written it the worker is closed (so no pair can follow)'
+    # ---- call(): enqueue + next_result (thread kind; the other kinds differ only in enqueue, which L5 covers)
+    def four(x):
+        l0 = Val.vitems(x)
+        l1 = ValList.vl_tl(l0)
+        l2 = ValList.vl_tl(l1)
+        l3 = ValList.vl_tl(l2)
+        return z3.And(Val.is_v_tup(x), ValList.is_vl_cons(l0), ValList.is_vl_cons(l1), Val.is_v_bool(ValList.vl_hd(l1)), ValList.is_vl_cons(l2),
+                      ValList.is_vl_cons(l3), ValList.is_vl_nil(ValList.vl_tl(l3)))
+
+    def call_setup(ex_, env):
+        enq_setup('thread')(ex_, env)
+        q = env['resq']
+        ac = ex_.abs_classes['Queue']
+        inq = ac.get(ex_, q, 'inq')
+        ipos0 = ex_.fresh('ipos0', smt.Int)
+        ac.set(ex_, q, 'ipos', ipos0)
+        ex_.assume(z3.And(ipos0 >= 0, ipos0 <= z3.Length(inq)))
+        env['inq'] = VSeq(inq)
+        env['ipos0'] = VInt(ipos0)
+        ex_.ghost['chan_elem_inv'] = {'results.q': lambda ex2, x, ipos: four(x)}
+
+    def rpos(c):
+        return c.ex.abs_classes['Queue'].get(c.ex, c.env['resq'], 'ipos')
+
+    def sent_one(c):
+        return argout(c) == z3.Concat(c.env['out0'].e, z3.Unit(pair(c)))
+
+    def call_ok(c):
+        inq, p0 = c.env['inq'].e, c.env['ipos0'].e
+        x = inq[p0]
+        flag = Val.vb(ValList.vl_hd(ValList.vl_tl(Val.vitems(x))))
+        value = ValList.vl_hd(ValList.vl_tl(ValList.vl_tl(Val.vitems(x))))
+        return z3.And(sent_one(c), p0 < z3.Length(inq), rpos(c) == p0 + 1, flag, lower(c.env['result'], c.ex) == value)
+    call_ok.__doc__ = 'call() hands over exactly one (args, kwargs) pair as given and returns the value of the next result message as it is'
+
+    def call_closed(c):
+        return z3.And(enq_closed(c), rpos(c) == c.env['ipos0'].e)
+    call_closed.__doc__ = 'WorkerClosedError exactly on a closed or dead worker: nothing written, no result consumed'
+
+    def call_empty(c):
+        inq, p0 = c.env['inq'].e, c.env['ipos0'].e
+        flag = Val.vb(ValList.vl_hd(ValList.vl_tl(Val.vitems(inq[p0]))))
+        return z3.And(sent_one(c), z3.Or(z3.And(rpos(c) == p0 + 1, p0 < z3.Length(inq), z3.Not(flag)), rpos(c) == p0))
+    call_empty.__doc__ = 'queue.Empty only after the input was handed over, when the next message is the end marker or nothing can be read (the worker died)'
+    out.append((Contract(PWK + '.call', lid='L6', name='C05.L6 call() = one enqueue as given + the value of the next result',
+                         params={'self': ('const', None), 'args': ('const', None), 'kwargs': ('const', None)}, self_class=persistent.KINDS['thread'], setup=call_setup,
+                         ensures=[call_ok], raises={'WorkerClosedError': call_closed, 'queue.Empty': call_empty}, raises_only=['WorkerClosedError', 'queue.Empty'],
+                         options={'recv_closed_check': False}), None))
+
+    for kind in ('thread', 'process', 'remote'):
+        cls = persistent.KINDS[kind]
+
+        def su(ex_, env, kind=kind):
+            base(ex_, env, kind)
+        out.append((Contract(cls + '.close', lid=f'L5c-{kind}', name=f'C05.L5c-{kind} close writes the single None of the argument channel',
+                             params={'self': ('const', None)}, self_class=cls, setup=su,
+                             ensures=[close_post], raises={}, raises_only=[], options={'recv_closed_check': False}), None))
+    return out
 
 
 def parent_side(ex):
